@@ -8,6 +8,7 @@ CONSTANTS
   Forms <- QuickForms
   SubRuns <- Yes
   Founds <- QuickFounds
+  Faults <- Yes
 INVARIANT TypeOK
 INVARIANT Recoverable
 PROPERTY DeleteGuard
